@@ -12,6 +12,10 @@ use std::sync::{Arc, Mutex};
 
 pub const TASK_STACK: usize = 8 << 20;
 
+/// set in the first-use child: several single-task plans execute at once on real threads and nothing may
+/// touch the libraries (not even CPU detection) before the tasks do
+pub static FIRST_USE: std::sync::atomic::AtomicBool = std::sync::atomic::AtomicBool::new(false);
+
 #[derive(Clone, Debug)]
 pub struct Viol {
     pub class: &'static str,
@@ -373,9 +377,11 @@ pub struct TaskLocal {
 pub fn exec(plan: &Plan) -> ExecOut {
     let data: Vec<Vec<u8>> = plan.data.iter().map(|d| d.materialize(plan.cfg.secret_xor)).collect();
     let n = plan.tasks.len();
-    crate::guard::reset_arena();
-    // every run starts from the same C dispatcher state
-    crate::cnode::set_mask(crate::cnode::detected_mask());
+    if !FIRST_USE.load(Ordering::Relaxed) {
+        crate::guard::reset_arena();
+        // every run starts from the same C dispatcher state
+        crate::cnode::set_mask(crate::cnode::detected_mask());
+    }
     let sched = Sched::new(&plan.schedule, n);
     let shared = Arc::new(Shared {
         plan: plan.clone(),
